@@ -371,7 +371,7 @@ package rsm
 //@ func (s *StateMachine) savingDummySnapshot [C11]
 //@ trusted pure decision
 
-//@ func (s *StateMachine) stream [C11]
+//@ func (s *StateMachine) stream [C11 C02 C08]
 //@ noframe
 //@ nobounds
 //@ requires s.sm != nil && s.sm.gapplymu == ptr(s.mu) && held(s.mu) == 0 && s.snapshotter != nil
@@ -406,7 +406,7 @@ package rsm
 //@ modifies held(s.mu), s.snapshotIndex
 //@ ensures held(s.mu) == 0
 
-//@ func (s *StateMachine) concurrentSave [C11 C08 C05]
+//@ func (s *StateMachine) concurrentSave [C11 C08 C05 C02]
 //@ noframe
 //@ requires s.sm != nil && s.snapshotter != nil && s.sessions != nil && s.sm.gconcurrent && s.sm.gapplymu == ptr(s.mu)
 //@ free requires s.sessions.gmu == ptr(s.mu)
